@@ -25,6 +25,7 @@ func c03(c *Ctx) {
 	loopVarRule(c, p, "C03.loopvar", pkgProcessor, pkgP2P)
 	R.Assumption("with disableHeartbeatVerify=true (spy mode) heartbeat verification is off by design; rules are evaluated for the guardian configuration (false)")
 
+	gossipEntryHasNoSnapshot(c, a, "C03.obs", "an observation for a message the node has not observed itself is judged against the current guardian set on arrival (an entry created from gossip alone does not pin the set of the first signature: after a set update a rotated-out guardian would still be accepted for it, and new members rejected)")
 	// ---- C03.obs: every aggregation-state write in handleObservation -----------------------
 	stateFld := map[*types.Var]bool{a.fVaaSigs: true}
 	for _, f := range a.vs {
@@ -640,4 +641,29 @@ func blockReaches(a, b *ssa.BasicBlock) bool {
 		st = append(st, x.Succs...)
 	}
 	return false
+}
+
+// gossipEntryHasNoSnapshot: the aggregation entry that handleObservation creates for a digest it
+// has no entry for carries neither an observed VAA nor a guardian-set snapshot; both are set only
+// by the node's own observation (broadcastSignature). The guardian set an observation is verified
+// against is therefore "snapshot of the own observation, else the current set".
+func gossipEntryHasNoSnapshot(c *Ctx, a *procAnchors, rule, claim string) {
+	p, R := a.p, c.R
+	vsT := must(p.Named(pkgProcessor, "vaaState"), "processor.vaaState")
+	n := 0
+	for _, s := range allocsOf(p, vsT) {
+		if s.Fn != a.hObs {
+			continue
+		}
+		n++
+		vals, _ := allocStores(s.Instr.(*ssa.Alloc))
+		var set []string
+		for _, f := range []string{"gs", "ourVAA", "ourMsg"} {
+			if v := vals[f]; v != nil && !isNilConst(v) {
+				set = append(set, f+" = "+facts.Term(v))
+			}
+		}
+		R.Check(rule, R.Key(rule, shortFn(s.Fn), "gossip-entry-unpinned"), c.sitePos(p, s), claim, len(set) == 0, "the entry created from gossip sets "+strings.Join(set, ", "))
+	}
+	R.Floor(rule+".gossip-entry", n, 1)
 }
